@@ -9,11 +9,12 @@ import (
 )
 
 func init() {
-	Explanations["C09"] = "Decides structural necessary conditions of 'the host's sector roots always match the committed contract, even on aborts' in the rhp.Server handlers: (R1) no element store, copy or in-place reordering ever reaches the slice handed out by the contract lock (RevisionState.Roots) or an alias of it — only a clone may be edited — so an aborted RPC cannot have changed the contractor's roots; (R2) the Merkle root committed into the revision and the roots persisted with it derive from the same slice variable (MetaRoot(X)/BuildAppendProof(old, X[len(old):]) for the X handed to ReviseV2Contract; the unchanged locked roots for the roots-listing RPC); (R3) request-derived indices and ranges subscript the roots only after the request was validated against the locked revision or bounds-checked against len(roots); (R4) the renter-side free call sends Compact(SortFunc(Clone(indices), descending)) and never writes the caller's slice. That nothing is persisted before the renter's signature verifies is decided by C08.R4. NOT decided: equality with the swap-remove list model for arbitrary index lists, readability of listed sectors, balances."
+	Explanations["C09"] = "Decides structural necessary conditions of 'the host's sector roots always match the committed contract, even on aborts' in the rhp.Server handlers: (R1) no element store, copy or in-place reordering ever reaches the slice handed out by the contract lock (RevisionState.Roots) or an alias of it — only a clone may be edited — so an aborted RPC cannot have changed the contractor's roots; (R2) the Merkle root committed into the revision and the roots persisted with it derive from the same slice variable (MetaRoot(X)/BuildAppendProof(old, X[len(old):]) for the X handed to ReviseV2Contract; the unchanged locked roots for the roots-listing RPC); (R3) request-derived indices and ranges subscript the roots only after the request was validated against the locked revision or bounds-checked against len(roots); (R4) the renter-side free call sends Compact(SortFunc(Clone(indices), descending)) and never writes the caller's slice. That nothing is persisted before the renter's signature verifies is decided by C08.R4. (R5) every repository implementation of Contractor.RenewV2Contract (the reference contractor) stores, under the renewed contract's id, roots read from its roots table under a different id (the contract being renewed): the renewed contract, which commits to the old file size and Merkle root, keeps its sectors. NOT decided: equality with the swap-remove list model for arbitrary index lists, readability of listed sectors, balances."
 
 	register(&Rule{ID: "C09.R1", Prop: "C09", Floor: 3, Doc: "the roots handed out by the contract lock are never written in place", Run: c09r1})
 	register(&Rule{ID: "C09.R2", Prop: "C09", Floor: 3, Doc: "committed Merkle root and persisted roots derive from the same slice", Run: c09r2})
 	register(&Rule{ID: "C09.R3", Prop: "C09", Floor: 2, Doc: "request-derived indices subscript the roots only after validation / bounds check", Run: c09r3})
+	register(&Rule{ID: "C09.R5", Prop: "C09", Floor: 1, Doc: "a contractor's renewal carries the sector roots over from the contract being renewed", Run: c09r5})
 	register(&Rule{ID: "C09.R4", Prop: "C09", Floor: 1, Doc: "client normalises free indices on a private copy (clone, sort descending, compact)", Run: c09r4})
 }
 
@@ -402,4 +403,66 @@ func descendingCmp(f *ir.Func, call *ast.CallExpr) bool {
 	a0, _ := ast.Unparen(cc.Args[0]).(*ast.Ident)
 	a1, _ := ast.Unparen(cc.Args[1]).(*ast.Ident)
 	return a0 != nil && a1 != nil && a0.Name == names[1].Name && a1.Name == names[0].Name
+}
+
+// c09r5: renewals carry the roots over.
+func c09r5(c *Ctx) {
+	renew := c.P.Method("rhp", "Contractor", "RenewV2Contract")
+	isRootsTable := func(t types.Type) bool {
+		mt, ok := t.Underlying().(*types.Map)
+		if !ok || !ir.IsNamed(mt.Key(), ir.PkgPath("types"), "FileContractID") {
+			return false
+		}
+		sl, ok := mt.Elem().Underlying().(*types.Slice)
+		return ok && ir.IsNamed(sl.Elem(), ir.PkgPath("types"), "Hash256")
+	}
+	n := 0
+	for _, f := range c.P.Funcs {
+		if f.Obj == nil || f.Obj.Name() != renew.Name() || f.Lit != nil {
+			continue
+		}
+		sig := f.Obj.Type().(*types.Signature)
+		if sig.Recv() == nil || !types.Identical(types.NewSignatureType(nil, nil, nil, sig.Params(), sig.Results(), false), types.NewSignatureType(nil, nil, nil, renew.Type().(*types.Signature).Params(), renew.Type().(*types.Signature).Results(), false)) {
+			continue
+		}
+		n++
+		c.VisitGraph(f)
+		ob := c.Ob(f, "roots-carried-over", f.Body.Pos())
+		carried, self := false, ""
+		for _, w := range f.WritesIn(f.Body, true) {
+			ix, ok := ast.Unparen(w.LHS).(*ast.IndexExpr)
+			if !ok || w.RHS == nil {
+				continue
+			}
+			tbl := f.FieldOf(ix.X)
+			if tbl == nil || !isRootsTable(tbl.Type()) {
+				continue
+			}
+			k1 := f.ObjOf(ix.Index)
+			ir.Walk(w.RHS, false, func(x ast.Node) {
+				rx, ok := x.(*ast.IndexExpr)
+				if !ok || f.FieldOf(rx.X) != tbl {
+					return
+				}
+				k2 := f.ObjOf(rx.Index)
+				switch {
+				case k1 != nil && k2 != nil && k1 != k2:
+					carried = true
+				case k1 != nil && k1 == k2:
+					self = c.P.Pos(w.LHS.Pos())
+				}
+			})
+		}
+		switch {
+		case carried:
+			ob.OK("the renewed contract's roots are read from another contract's entry")
+		case self != "":
+			ob.Bad(nil, "%s copies the roots entry of the renewed contract's id onto itself at %s: the new contract, which commits to the old file size and Merkle root, starts with no sector roots", f.Name(), self)
+		default:
+			ob.Bad(nil, "%s does not store roots for the renewed contract taken from the contract being renewed", f.Name())
+		}
+	}
+	if n == 0 {
+		ir.Fail("no repository implementation of Contractor.RenewV2Contract found")
+	}
 }
